@@ -22,7 +22,7 @@ GEN = []
 PROPS = "Props/C05.v"
 COQ_CHECK = ("Model.C05", "check")
 COQ_FALLBACK = None
-COQ_IMPORTS = "From PAV Require Import Base.NumOps."
+COQ_IMPORTS = "From PAV Require Import Base.NumOps Model.C05Chol."
 SHARD = 40
 EXHAUSTIVE = {}
 RULE = ("SPD systems A = Z^T Z (+ R) + k I, n = 1..8, integer or quarter entries, right-hand sides b of four classes (positive, zero-mean, "
@@ -50,9 +50,10 @@ BAND = Fraction(1, 10 ** 6)
 STATS = {"chol_contract_calls": 0, "chol_contract_max_residual": 0.0, "solver_runs": 0, "runs_with_prune_step": 0,
          "runs_with_inner_fix_step": 0, "runs_with_2plus_inner_fix_steps": 0, "runs_with_multi_delete_step_exact": 0, "outer_iterations": 0,
          # measured on the implementation (wrapper around the choldeleteindexes that fnnls.py calls)
-         "impl_solver_runs_watched": 0, "impl_delete_calls": 0, "impl_delete_calls_2plus": 0, "impl_runs_deleting_2plus_in_one_step": 0,
+         "chol_cases_in_coq": 0, "chol_calls_too_deep_for_coq": 0, "impl_solver_runs_watched": 0, "impl_delete_calls": 0, "impl_delete_calls_2plus": 0, "impl_runs_deleting_2plus_in_one_step": 0,
          "impl_runs_deleting_3plus_in_one_step": 0, "impl_max_deleted_in_one_step": 0,
          "glue_cases_nonmapper_before_mapper": 0, "glue_cases_nonmapper_before_mapper_with_forced_edge_and_zero_lists": 0}
+CHOL_BUDGET = [120]     # number of Cholesky-update calls turned into Coq cases (set per tier by gen_inputs)
 SKIPPED = {}        # reason -> number of cases not evaluated at all
 SPEC_ONLY = {}      # reason -> number of cases where only the specification was evaluated on the implementation's output (KSpec)
 def note(d, reason): d[reason] = d.get(reason, 0) + 1
@@ -66,7 +67,8 @@ def tally(m):
 def extra_evidence():
     return {"skipped_by_reason": dict(SKIPPED), "skipped_total": sum(SKIPPED.values()),
             "spec_only_by_reason": dict(SPEC_ONLY), "spec_only_total": sum(SPEC_ONLY.values()),
-            "cholesky_contract_calls": STATS["chol_contract_calls"],
+            "cholesky_contract_calls": STATS["chol_contract_calls"], "cholesky_update_calls_checked_in_coq": STATS["chol_cases_in_coq"],
+            "cholesky_delete_calls_not_replayed_in_coq_more_than_5_rotations": STATS["chol_calls_too_deep_for_coq"],
             "cholesky_contract_max_residual": STATS["chol_contract_max_residual"],
             "branch_tally": {k: STATS[k] for k in ("solver_runs", "runs_with_prune_step", "runs_with_inner_fix_step",
                                                    "runs_with_2plus_inner_fix_steps", "runs_with_multi_delete_step_exact", "outer_iterations")},
@@ -203,8 +205,29 @@ def Sv(v): return [str(F(x)) for x in v]
 # --------------------------------------------------------------------------------------------- Cholesky contract watcher
 class CholWatch:
     """wraps the factor updates used by fnnls_cholesky: after each call, U'^T U' must equal the bordered / deleted Gram matrix"""
-    def __init__(self):
-        self.bad = None; self.deleted = []
+    def __init__(self, record=True):
+        self.bad = None; self.deleted = []; self.cases = []; self.record = record
+    def tri(self, U):
+        """upper-triangular factor -> its rows from the diagonal on, as Coq rationals (Model/C05Chol.v)"""
+        U = np.asarray(U, dtype=float)
+        return clist([clist([cq(frac(v)) for v in U[r, r:]]) for r in range(U.shape[0])])
+    def keep(self, kind, U0, arg, out, multi=False):
+        """record the call as a Coq case (model of the update vs implementation; contract evaluated in Coq): the first insertion, the
+        first deletion and every deletion of >= 2 indexes of a run (at most 4 per run), factors up to 7 x 7, while the budget lasts"""
+        if not self.record or CHOL_BUDGET[0] <= 0 or U0.shape[0] > 7 or U0.shape[0] == 0: return
+        n_kind = sum(1 for c in self.cases if c[0] == kind)
+        if len(self.cases) >= 4 or (n_kind >= 1 and not multi): return
+        if kind == "del":       # every rotation of _cholupdate takes a square root of the previous results: the exact rationals of the
+            # model double in size per rotation, so only calls with at most 5 rotations in all are replayed in Coq
+            size = U0.shape[0]; rot = 0
+            for i in sorted(arg, reverse=True): rot += size - 1 - i; size -= 1
+            if rot > 5: STATS["chol_calls_too_deep_for_coq"] += 1; return
+        out = np.asarray(out, dtype=float)
+        if out.ndim != 2 or out.shape[0] != out.shape[1] or not np.all(np.isfinite(out)): return     # shape / nan: reported by `note`
+        CHOL_BUDGET[0] -= 1; STATS["chol_cases_in_coq"] += 1
+        if kind == "ins": self.cases.append((kind, f"(KChol (KIns {self.tri(U0)} {cqv([frac(v) for v in arg])} {self.tri(out)}))"))
+        else: self.cases.append((kind, f"(KChol (KDel {self.tri(U0)} {clist([cnat(i) for i in arg])} {self.tri(out)}))"))
+    def coq_cases(self): return [c[1] for c in self.cases]
     def __enter__(self):
         import autoarray.util.fnnls as fm
         self.fm = fm; self.orig = (fm.cholinsertlast, fm.choldeleteindexes)
@@ -217,6 +240,7 @@ class CholWatch:
                 G = U0.T @ U0; m = G.shape[0]
                 want = np.zeros((m + 1, m + 1)); want[:m, :m] = G; want[:m, m] = x[:m]; want[m, :m] = x[:m]; want[m, m] = x[m]
                 watch.note(np.asarray(S_), want)
+                watch.keep("ins", U0, x, S_)
             return S_
         def dele(*a, **k):
             try: U0 = np.array(a[0], dtype=float); idx = [int(i) for i in a[1]]; watch.deleted.append(len(idx))
@@ -226,6 +250,7 @@ class CholWatch:
                 G = U0.T @ U0
                 want = np.delete(np.delete(G, idx, axis=0), idx, axis=1)
                 watch.note(np.asarray(S_), want)
+                watch.keep("del", U0, idx, S_, multi=len(idx) >= 2)
             return S_
         fm.cholinsertlast, fm.choldeleteindexes = ins, dele
         return self
@@ -414,6 +439,7 @@ ORDERS = ["fm", "fmf", "ffm", "mfm", "fmm", "mf", "fmfm", "m"]     # f = non-map
 
 def gen_inputs(tier, rng):
     big = tier == "thorough"
+    CHOL_BUDGET[0] = 1200 if big else 80
     # ---- the glue layer: every order of mappers / non-mapper objects with non-empty forced lists (mock objects, then Rectangular mappers)
     for i in range(160 if big else 24):
         yield gen_mock_order(rng, ORDERS[i % len(ORDERS)], i)
@@ -649,11 +675,11 @@ def run_fnnls(aa, inp):
     m = Mirror(); m.fnnls(A, b, Fraction(EPS * n), pinit)
     tally(m)
     why = ILL if ill_conditioned(A) else (TIE if m.margin < BAND else None)
-    with CholWatch() as cw:
+    with CholWatch(record=why != ILL) as cw:
         res = out_vec(call(fnnls.fnnls_cholesky, flm(A), np.array(fl(b)), arg))
     if why == ILL and cert_swamped(A, b, res): return skip_row("fnnls", "ill-conditioned and rounding error of the certificate near its tolerance")
     coq = spec_only(f"(KFnnls {cqm(A)} {cqv(b)} {cq(F(EPS))} {copt(pinit, cbools)} {cres_vec(res)})", why)
-    return {"coq": coq, "out": show(res), "py_ok": (False if cw.bad else None), "detail": cw.bad,
+    return {"coq": coq, "extra_coq": cw.coq_cases(), "out": show(res), "py_ok": (False if cw.bad else None), "detail": cw.bad,
             "kind": "fnnls:" + st["kind"] + (":sym" if inp.get("sym") else "") + (":speconly" if why else ""),
             "nontrivial": nontrivial_system(A, b)}
 
@@ -664,12 +690,12 @@ def run_posonly(aa, inp):
     if mg is None: return skip_row("posonly", "exact system singular (outside the SPD quantifier)")
     why = ILL if ill_conditioned(A) else (TIE if mg < BAND else None)
     settings = aa.SettingsInversion(positive_only_uses_p_initial=inp["uses_p"])
-    with CholWatch() as cw:
+    with CholWatch(record=why != ILL) as cw:
         res = out_vec(call(inversion_util.reconstruction_positive_only_from, data_vector=np.array(fl(b)),
                            curvature_reg_matrix=flm(A) if n else np.zeros((0, 0)), settings=settings))
     if why == ILL and cert_swamped(A, b, res): return skip_row("posonly", "ill-conditioned and rounding error of the certificate near its tolerance")
     coq = spec_only(f"(KPosOnly {cqm(A)} {cqv(b)} {cq(F(EPS))} {cbool(inp['uses_p'])} {cres_vec(res)})", why)
-    return {"coq": coq, "out": show(res), "py_ok": (False if cw.bad else None), "detail": cw.bad,
+    return {"coq": coq, "extra_coq": cw.coq_cases(), "out": show(res), "py_ok": (False if cw.bad else None), "detail": cw.bad,
             "kind": "posonly:" + ("warm" if inp["uses_p"] else "cold") + (":sym" if inp.get("sym") else "") + (":speconly" if why else ""),
             "nontrivial": n > 0 and nontrivial_system(A, b)}
 
@@ -752,13 +778,13 @@ def inversion_rows(aa, inv, objs_desc, st, kind, nontrivial=True):
         STATS["glue_cases_nonmapper_before_mapper"] += 1
         if st["pos"] and st["force"] and st["edge_image"] and any(o["mapper"] and o["edge"] for o in objs_desc) and st["source_zero"] and forced:
             STATS["glue_cases_nonmapper_before_mapper_with_forced_edge_and_zero_lists"] += 1
-    with CholWatch() as cw:
+    with CholWatch(record=why not in (ILL, COST)) as cw:
         res = out_vec(call(lambda: inv.reconstruction))
     cobjs = clist([cobj(o["params"], o["mapper"], o["edge"], o["Mq"]) for o in objs_desc])
     cs = cset(st["pos"], st["pinit"], st["force"], st["edge_image"], st["source_zero"], st["check"])
     if why == ILL and cert_swamped(A, b, res): return skip_row(kind, "ill-conditioned and rounding error of the certificate near its tolerance")
     coq = spec_only(f"(KRecon {cs} {cobjs} {cqm(A)} {cqv(b)} {cq(F(EPS))} {cres_vec(res)})", why)
-    extra = []; py_ok = False if cw.bad else None; detail = cw.bad
+    extra = cw.coq_cases(); py_ok = False if cw.bad else None; detail = cw.bad
     out = {"reconstruction": show(res)}
     if res[0] == "ok":
         s = res[1]
